@@ -100,10 +100,13 @@ class LeadSheet(events_lib.EventSequence):
     Returns:
       Python iterator over (melody, chord) event tuples.
     """
-    return itertools.izip(self._melody, self._chords)
+    return zip(self._melody, self._chords)
 
   def __getitem__(self, i):
-    """Returns the melody-chord tuple at the given index."""
+    """Returns the melody-chord tuple at the given index, or a LeadSheet slice."""
+    if isinstance(i, slice):
+      # Python 3 passes slices to __getitem__ (__getslice__ is never called).
+      return LeadSheet(self._melody[i], self._chords[i])
     return self._melody[i], self._chords[i]
 
   def __getslice__(self, i, j):
@@ -238,14 +241,15 @@ class LeadSheet(events_lib.EventSequence):
     self._chords.transpose(transpose_amount)
     return transpose_amount
 
-  def set_length(self, steps):
+  def set_length(self, steps, from_left=False):
     """Sets the length of the lead sheet to the specified number of steps.
 
     Args:
       steps: How many steps long the lead sheet should be.
+      from_left: Whether to add/remove from the left instead of right.
     """
-    self._melody.set_length(steps)
-    self._chords.set_length(steps)
+    self._melody.set_length(steps, from_left=from_left)
+    self._chords.set_length(steps, from_left=from_left)
 
   def increase_resolution(self, k):
     """Increase the resolution of a LeadSheet.
